@@ -213,5 +213,7 @@ def families(tier):
             TwoOnes5('sq5_bin_two_ones', [(5, 5)], 'bin', tiers=('thorough',),
                      note=' restricted to exactly two ones per row'),
             MatrixFamily('rect24_grade4', [(2, 4), (4, 2)], 'grade4', tiers=('thorough',)),
+            MatrixFamily('sq4_int012', [(4, 4)], 'int012', tiers=('thorough',),
+                         note=' (all 43 046 721 matrices: the smallest exhaustive space with 4x4 partial costs)'),
         ]
     return fams
